@@ -1,0 +1,29 @@
+//go:build verif
+
+package fastforward
+
+import (
+	"fmt"
+
+	"github.com/IrineSistiana/mosdns/v5/pkg/upstream"
+	"go.uber.org/zap"
+)
+
+// VerifNewForward builds a Forward over in-memory upstreams for the
+// verification harness (/verif). Add-only, compiled only with -tags verif.
+func VerifNewForward(concurrent int, us []upstream.Upstream, tags []string) *Forward {
+	f := &Forward{
+		args:         &Args{Concurrent: concurrent},
+		logger:       zap.NewNop(),
+		tag2Upstream: make(map[string]*upstreamWrapper),
+	}
+	for i, u := range us {
+		uw := newWrapper(i, UpstreamConfig{Tag: tags[i], Addr: fmt.Sprintf("mem-%d", i)}, "verif")
+		uw.u = u
+		f.us = append(f.us, uw)
+		if len(tags[i]) > 0 {
+			f.tag2Upstream[tags[i]] = uw
+		}
+	}
+	return f
+}
